@@ -7,6 +7,7 @@
   (DESIGN §15.8).  Core Lean only.
 -/
 import Bkl.Output
+import Bkl.Encode
 namespace Bkl
 
 /-- errors of a translated function: running out of recursion fuel (Go: unbounded stack) -/
@@ -24,6 +25,11 @@ inductive Loop (σ : Type) (ρ : Type) where
   | next (s : σ)   -- `continue`, or the end of the body
   | brk (s : σ)    -- `break`
   | ret (r : ρ)    -- `return r`
+
+/-- early exits of a loop nested directly in a labelled loop: `return r`, or `continue <outer label>` -/
+inductive Exit (ρ : Type) where
+  | ret (r : ρ)
+  | cont
 
 /-- `for … := range xs { body }` with the loop-carried variables `s`:
     `inl s` = the loop ended with state `s`, `inr r` = the body returned `r`. -/
